@@ -97,6 +97,8 @@ prop("C10", ["prims.go", "c10.go"],
           quick={"bound": "two stderr lines: the first a text line (plain / panic: / [LEVEL]) of symbolic length <= 2 buffers (shorter than, exactly, longer than the buffer), the second a one-piece line over the full class space; buffer size symbolic in [16, 2^20]"}),
       run("panic-trace", "harnessC10trace", ["trace-done"],
           quick={"bound": "six stderr lines: 'panic: <symbolic>', three unprefixed symbolic text lines, '[INFO] ...', one unprefixed symbolic text line; LF or CRLF on one of them; every line shorter than the buffer"}),
+      run("exit-tail", "harnessC10exitTail", ["tail-copied"], files=WORLD,
+          quick={"bound": "a scripted plugin launched through exec.Cmd (the real CmdRunner; exec.Cmd.Wait closes the pipes once the command has exited) writes three stderr lines and exits; the host's Stderr writer takes half a second per write; everything written is copied, in order"}),
       run("stdout", "harnessC10stdout", ["after-handshake"], files=["prims.go", "c10b.go"],
           quick={"bound": "whole Client.Start with a valid handshake line followed by three stdout lines, the first of symbolic length <= 2^20 (either side of the 64 KiB Scanner limit)"}),
       ],
@@ -112,7 +114,7 @@ EXIT = "os.Exit(n) ends every goroutine of the modelled plugin process and recor
 prop("C16", ["prims.go", "m_print.go", "c16.go"],
      [run("serve", "harnessC16", ["refused", "serving"],
           quick={"bound": "net/rpc plugin; configured cookie key empty or not; configured and environment cookie values arbitrary strings; PLUGIN_MULTIPLEX_GRPC unset / set but empty / \"true\" / other; PLUGIN_CLIENT_CERT set or not"}),
-      run("serve-world", "harnessC16world", ["refused", "serving", "no-cookie-key", "client-cert", "damaged-version-entry", "percent-in-socket-dir"], files=WORLD,
+      run("serve-world", "harnessC16world", ["refused", "serving", "no-cookie-key", "client-cert", "damaged-version-entry", "percent-in-socket-dir", "program-output-after-handshake"], files=WORLD,
           quick={"bound": "a plugin process on the world model: net/rpc or gRPC, plain or versioned plugin sets (with a version list in the environment, well-formed or with entries that are not numbers), cookie key configured or empty, cookie variable unset or an arbitrary string, PLUGIN_MULTIPLEX_GRPC unset / empty / true / other, client certificate set or not, socket directory default or one with a per cent sign in its name; checked: exit status, stdout, listener before line, field count, version, protocol, announced address accepting"})],
      [GHOSTFS, EXIT, STR, "crypto (generateCert, X509KeyPair, CertPool) opaque; os.Pipe/os.Stdout swap modelled; signal.Notify no-op"],
      ["os.Getenv/Exit/Pipe", "net.Listen", "crypto/tls", "crypto/x509", "os/signal", "net/rpc server"],
@@ -209,8 +211,8 @@ YAMUX = "yamux model: a session is a pair of FIFO queues of streams; Open enqueu
 prop("C18", ["prims.go", "m_print.go", "c18.go"],
      [run("lifecycle", "harnessC18", ["mux", "no-mux"],
           quick={"bound": "plugin side, gRPC, multiplexing on/off, no brokered listeners: a whole life cycle Serve -> host connects -> controller Shutdown -> Serve returns, against the ghost file system"}),
-      run("world", "harnessC18world", ["dispensed", "host-serves", "plugin-serves", "two-plugin-servers", "host-listener-left-open", "rpc-callback", "closed-before-kill", "two-plugin-servers-one-id", "plugin-server-factory-in-progress", "clean"], files=WORLD,
-          quick={"params": {"trace": 0}, "bound": "host x plugin composed, net/rpc, gRPC and gRPC+mux, both launch methods; history: dispense and call; optionally a brokered server on the host dialled and called by the plugin; optionally one or two brokered servers on the plugin (on two IDs, or one after the other on the same ID with the first still serving), each dialled and called by the host; optionally a brokered server on the plugin whose factory is still running when the shutdown arrives; optionally a host-side brokered listener still open at Kill (custom runner); then either Kill, or the protocol client closed first, three seconds (the plugin exits and the exit is recorded) and then Kill; then six seconds"})],
+      run("world", "harnessC18world", ["dispensed", "host-serves", "plugin-serves", "two-plugin-servers", "host-listener-left-open", "rpc-callback", "closed-before-kill", "two-plugin-servers-one-id", "plugin-server-factory-in-progress", "other-namespace", "unix-socket-config", "clean"], files=WORLD,
+          quick={"params": {"trace": 0, "as": 18}, "bound": "host x plugin composed, net/rpc, gRPC and gRPC+mux, both launch methods (a custom runner optionally with the plugin in another file-system namespace - only the runner's socket directory shared - and UnixSocketConfig given or nil); history: dispense and call; optionally a brokered server on the host dialled and called by the plugin; optionally one or two brokered servers on the plugin (on two IDs, or one after the other on the same ID with the first still serving), each dialled and called by the host; optionally a brokered server on the plugin whose factory is still running when the shutdown arrives; optionally a host-side brokered listener still open at Kill (custom runner); then either Kill, or the protocol client closed first, three seconds (the plugin exits and the exit is recorded) and then Kill; then six seconds"})],
      [GHOSTFS, GRPCSEAM, YAMUX, EXIT] + WORLD_ASSUME,
      WORLD_STUBS,
      "histories with more than one brokered connection per direction; stdio traffic; goroutines inside gRPC and yamux (delegated)",
@@ -221,8 +223,8 @@ prop("C18", ["prims.go", "m_print.go", "c18.go"],
 prop("C04", ["prims.go", "c04.go"],
      [run("kill-seam", "harnessC04", ["connected", "forced", "graceful", "kill-returned"],
           quick={"bound": "gRPC over the generated-client seam, RunnerFunc launch, connected client, one Kill; plugin behaviour in {cooperative after symbolic delay d, answers but never exits, frozen}"}),
-      run("kill-world", "harnessC04world", ["connected", "graceful", "forced", "already-dead", "repeated", "overlapping-kill", "client-failed-before-kill", "kill-before-start"], files=WORLD,
-          quick={"bound": "host x plugin composed, net/rpc and gRPC, both launch methods; plugin shutdown behaviour in {exits at once, exits after a symbolic clean-up time d <= 10 s, acknowledges but never exits, frozen (SIGSTOP), already crashed}; call pattern: one Kill, a repeated Kill, and a second Kill from another goroutine at a symbolic instant in [first Kill, +6 s]; also the history Start, plugin freezes or crashes, Client() (fails for net/rpc), Kill; each history optionally preceded by a Kill before anything was started"}),
+      run("kill-world", "harnessC04world", ["connected", "graceful", "forced", "already-dead", "repeated", "overlapping-kill", "client-failed-before-kill", "kill-before-start", "slow-shutdown-request"], files=WORLD,
+          quick={"bound": "host x plugin composed, net/rpc and gRPC, both launch methods; plugin shutdown behaviour in {exits at once, exits after a symbolic clean-up time d <= 10 s, acknowledges but never exits, frozen (SIGSTOP), already crashed}; call pattern: one Kill, a repeated Kill, and a second Kill from another goroutine at a symbolic instant in [first Kill, +6 s]; also the history Start, plugin freezes or crashes, Client() (fails for net/rpc), Kill; each history optionally preceded by a Kill before anything was started; for cooperative plugins optionally a shutdown request that takes a symbolic time <= 1 s to reach the plugin"}),
       run("cleanup-clients", "harnessC04cleanup", ["cleaned-up"], files=WORLD,
           quick={"bound": "CleanupClients over two managed clients (protocols free): the second healthy, ignoring the request, or never started"}),
       run("kill-after-failed-start", "harnessC05killAfter", ["start-failed", "kill-later", "more-stdout-after-the-line"], files=WORLD,
@@ -256,6 +258,7 @@ prop("C06", ["prims.go", "c06.go"],
      [run("routing", "harnessC06", ["dispensed", "routed"], dpor=True,
           quick={"max_reversals": 2, "bound": "two Dispense calls + two symbolic distinct IDs accepted on the host and dialled from the plugin within a symbolic gap < 5 s in either order; all schedules with <= 2 reversals"},
           thorough={"max_reversals": 3, "max_wall_s": 1700, "bound": "as quick with <= 3 reversals (260 747 schedules, 14.7 M solver queries, 13 min on 16 cores when measured)"}),
+      run("nextid", "harnessC20nextid", ["ids-distinct"], dpor=True, files=["prims.go", "c20.go"], quick={"max_reversals": 2, "params": {"as": 6}, "bound": "two goroutines each taking two IDs from both broker kinds, counter value symbolic (wrap-around included); all schedules with <= 2 reversals"}),
       run("mux-history", "harnessC09a", ["accept-matched", "dial-inside-window", "probe-done"], files=["prims.go", "c09a.go"],
           quick={"bound": "C09's MuxBroker history run read for C06 (canonical schedule): with another dial pending on a different ID, an Accept(a) and a dial for a that arrives within four seconds of it are matched"}),
       run("after-timeout", "harnessC06afterTimeout", ["lonely-on-host", "lonely-on-plugin", "timed-out", "abandoned-dial", "routed"], dpor=True,
@@ -273,8 +276,11 @@ prop("C07", ["prims.go", "c07.go"],
       run("same-instant", "harnessC07same", ["host-accepts", "plugin-accepts", "routed"], dpor=True,
           quick={"max_reversals": 2, "bound": "one symbolic ID accepted and dialled at the same instant (the connection info arrives while the Dial looks its pending entry up), plugin accepts / host dials or the reverse, real stream pumps; all schedules with <= 2 reversals"},
           thorough={"max_reversals": 3, "max_wall_s": 1500, "bound": "as quick with <= 3 reversals"}),
+run("nextid", "harnessC20nextid", ["ids-distinct"], dpor=True, files=["prims.go", "c20.go"], quick={"max_reversals": 2, "params": {"as": 7}, "bound": "two goroutines each taking two IDs from both broker kinds, counter value symbolic (wrap-around included); all schedules with <= 2 reversals"}),
       run("two-dials", "harnessC07twoDials", ["routed"], dpor=True, files=["prims.go", "c07.go"],
           quick={"max_reversals": 2, "race": True, "bound": "two symbolic IDs accepted on the plugin and then dialled from the host by two goroutines at once (two connections being set up in one process), each dialled connection then used once; all schedules with <= 2 reversals; happens-before race detection over what go-plugin touches while dialling (append into a shared backing array is modelled)"}),
+      run("composed-callbacks", "harnessC18world", ["host-serves", "plugin-serves", "other-namespace", "unix-socket-config"], files=WORLD,
+          quick={"params": {"trace": 0, "as": 7}, "bound": "C18's life-cycle run read for C07: brokered servers on the host (dialled and called by the plugin) and on the plugin (dialled and called by the host), both launch methods, a custom runner optionally with the plugin in another file-system namespace where only the runner's socket directory is shared, UnixSocketConfig given or nil"}),
       run("retry-after-timeout", "harnessC09grpc", ["history-done", "fresh-pair", "retry-of-timed-out-id"],
           quick={"params": {"as_c07": 1}, "bound": "C09's history run read as a routing claim: <= 2 dials nobody accepts (they time out), optionally an accept nobody dials, then accept - symbolic gap <= 4 s - dial on a fresh ID or on the ID whose dial timed out; canonical schedule, symbolic clock"})],
      [GRPCSEAM, GHOSTFS, "broker stream = FIFO pair; Send copies the message"], ["grpc", "net.Listen", "generated broker stream"],
@@ -301,6 +307,8 @@ prop("C11", ["prims.go", "c11.go"],
      [run("grpc-stdio", "harnessC11", ["delivered"], dpor=True,
           quick={"max_reversals": 2, "race": True, "bound": "gRPC: two stdout chunks and one stderr chunk, each an opaque byte view of symbolic length 1..1024; all schedules with <= 2 reversals; happens-before race detection on the chunk buffer"},
           thorough={"max_reversals": 3, "race": True, "max_wall_s": 1500, "bound": "as quick with <= 3 reversals"}),
+      run("one-stream-closed", "harnessC11eof", ["stderr-closed", "stdout-closed", "delivered"],
+          quick={"bound": "gRPC seam: the plugin writes one chunk to one stream and closes it (EOF), writes a chunk to the other and two seconds later another; canonical schedule"}),
       run("large-write", "harnessC11large", ["one-chunk", "several-chunks", "beyond-bufio-buffer"],
           quick={"bound": "gRPC seam: one stdout write of symbolic length 1..5000 (either side of the 1 KiB chunk and of bufio's 4 KiB buffer) followed by a short one; bufio.Reader modelled with its read-ahead buffer; canonical schedule"}),
       run("composed", "harnessC11world", ["delivered", "written-before-attach"], files=WORLD,
@@ -314,7 +322,7 @@ prop("C11", ["prims.go", "c11.go"],
 prop("C20", ["prims.go", "c20.go"],
      [run("stop-stop", "harnessC20stop", ["both-stopped"], dpor=True, quick={"max_reversals": 2, "race": True, "bound": "two goroutines calling GRPCServer.Stop"}),
       run("close-close", "harnessC20close", ["both-closed"], dpor=True, quick={"max_reversals": 2, "race": True, "bound": "two goroutines calling GRPCBroker.Close (sync.Once control)"}),
-      run("nextid", "harnessC20nextid", ["ids-distinct"], dpor=True, quick={"max_reversals": 2, "race": True, "bound": "two goroutines each taking two IDs from both broker kinds, counter value symbolic (wrap-around included)"}),
+      run("nextid", "harnessC20nextid", ["ids-distinct"], dpor=True, quick={"max_reversals": 2, "race": True, "params": {"as": 20}, "bound": "two goroutines each taking two IDs from both broker kinds, counter value symbolic (wrap-around included)"}),
       run("client-methods", "harnessC19concurrent", ["two-starts", "two-clients", "done"], dpor=True, files=WORLD,
           quick={"max_reversals": 1, "race": True, "bound": "host x plugin composed (net/rpc and gRPC, AutoMTLS on or off): two goroutines on one Client, each performing one of {Start, Client, Protocol+Exited+ID+ReattachConfig, Kill}; all schedules with <= 1 reversal; happens-before race detection over everything go-plugin touches on both sides"}),
       run("serve-shutdown", "harnessC20serveShutdown", ["host-side", "plugin-side", "after-shutdown", "shut-down"], dpor=True, files=WORLD,
